@@ -46,6 +46,7 @@ def explore_generic(ctx, spec, budget, rule, exhaustive=False, chunk=200000):
     keys = set()
     dist = {}
     driver_stats = {'env_queries': 0}
+    per_class = {}
 
     def flush(batch):
         if not batch:
@@ -70,7 +71,11 @@ def explore_generic(ctx, spec, budget, rule, exhaustive=False, chunk=200000):
             res['evaluations'] += 1
             vs = spec.oracle(c, r)
             for v in vs:
-                if len(res['violations']) < 50:
+                # keep up to 20 witnesses per finding class so that listed
+                # findings never crowd out an unlisted violation
+                cls = spec.classify(v) if hasattr(spec, 'classify') else None
+                per_class[cls] = per_class.get(cls, 0) + 1
+                if per_class[cls] <= 20:
                     res['violations'].append(v)
             k = spec.key(c, r)
             if k is not None:
